@@ -6,7 +6,7 @@ from .. import tlc
 from ..adapters import framelife as ad
 
 MODULE = "FrameLife"
-ACTIONS = ["Create", "GetWaterfall", "CopyOp", "PickleOp", "Mutate", "ShiftTs", "Slice", "Dedrift", "Integrate", "Save", "Load", "LoadSub"]
+ACTIONS = ["Create", "GetWaterfall", "CopyOp", "PickleOp", "Mutate", "ShiftTs", "Rebind", "Slice", "Dedrift", "Integrate", "Save", "Load", "LoadSub", "LoadT"]
 
 
 def run_for(ctx, pid):
@@ -22,15 +22,44 @@ def run_for(ctx, pid):
         raise RuntimeError("vacuity: actions never taken: %s" % dead)
     depth = ctx.pick(6, 8)
     num = ctx.pick(500, 12000)
-    cfg = tlc.cfg_with("FrameLife_Gen.cfg", {"MaxOps": str(depth), "MaxObjs": "4"}, ctx.outdir)
+    cfg = tlc.cfg_with("FrameLife_Gen.cfg", {"MaxOps": str(depth), "MaxObjs": "4", "MaxCreate": "2"}, ctx.outdir)
     res = tlc.run(MODULE, cfg, ctx.outdir, workers=4, simulate=num // 4, depth=depth + 2, seed=ctx.seed, timeout=2400)
     ctx.add_tlc(res, "FrameLife_Gen simulate depth=%d" % depth, "R-generate")
     if not res.emitted:
         raise RuntimeError("FrameLife_Gen produced nothing")
+    behs = list(res.emitted)
+    if pid == "C03":
+        behs += focus_behaviours(ctx)
+    replay_list(ctx, behs, pid)
+
+
+def focus_behaviours(ctx):
+    behs = []
+    # every sequence over a small alphabet around Waterfall attachment / rebinding the pixel array / save / load
+    # (two frames with different source names): exhaustive to depth 4, and a seeded sample of depth 5 (all of them when thorough)
+    cfg = tlc.cfg_with("FrameLife_Gen.cfg", {"MaxOps": "4", "MaxObjs": "3", "MaxCreate": "2", "Focus": '"save"'}, ctx.outdir)
+    res = tlc.run(MODULE, cfg, ctx.outdir, workers=1, timeout=2400)
+    ctx.add_tlc(res, "FrameLife_Gen focus=save depth 4 (exhaustive)", "R-generate")
+    behs += res.emitted
+    cfg = tlc.cfg_with("FrameLife_Gen.cfg", {"MaxOps": "5", "MaxObjs": "3", "MaxCreate": "2", "Focus": '"save"'}, ctx.outdir)
+    res = tlc.run(MODULE, cfg, ctx.outdir, workers=1, timeout=2400)
+    ctx.add_tlc(res, "FrameLife_Gen focus=save depth 5 (exhaustive)", "R-generate")
+    import random
+    rnd = random.Random(ctx.seed)
+    d5 = list(res.emitted)
+    if ctx.quick():
+        # behaviours ending in a save are the informative ones
+        d5 = [b for b in d5 if b[-2]["act"]["name"] == "Save"]
+        d5 = rnd.sample(d5, min(len(d5), 400))
+    behs += d5
+    return behs
+
+
+def replay_list(ctx, behs, pid):
     work = os.path.join(ctx.outdir, "files")
     os.makedirs(work, exist_ok=True)
     gl = list(ad.GEOMS)
-    for n, beh in enumerate(res.emitted):
+    for n, beh in enumerate(behs):
         steps = [s for s in beh if s["act"]["name"] != "Done"]
         gname = gl[n % len(gl)]
         ctx.mark((gname,) + tuple(tuple(sorted((k, str(v)) for k, v in s["act"].items())) for s in steps))
@@ -38,7 +67,7 @@ def run_for(ctx, pid):
         ctx.steps += len(steps)
         if len(ctx.samples) < 2:
             ctx.sample({"leg": "R", "geometry": gname, "actions": [s["act"] for s in steps]})
-        for d in ad.replay(beh, gname, work, "b%d" % n):
+        for d in ad.replay(beh, gname, work, ("f%d" if len(behs) > 1000 and n >= 500 else "b%d") % n):
             if pid in d.cls.split("|"):
                 report(ctx, d, steps, gname)
 
